@@ -406,3 +406,44 @@ class EncodeRows(Contract):
 
 
 UNITS.append(EncodeRows())
+
+
+# ---- attributes.py::_to_nested_list: the `before` normalisation every BroadcastValue / table attribute goes through ------------------
+class ToNestedList(Contract):
+    """_to_nested_list(v): None stays None; a scalar becomes [[v]]; a flat list of scalars becomes [v] (one row, the same list); a list of
+    lists is returned as it is (same rows, same order: C09 - attribute (i, j) stays attribute (i, j)); a tuple becomes one row per item."""
+    target = "attributes.py::_to_nested_list"
+    serves = ["C09", "C19"]
+    models = [StrModel()]
+    variants = ["none", "scalar", "flat_list", "nested_list"]
+
+    def setup(self, c):
+        var = c.variant
+        if var == "none":
+            v = None
+        elif var == "scalar":
+            v = c.fresh("value", T.Str)
+        elif var == "flat_list":
+            v = c.fresh("values", T.List(T.Str, minlen=1))
+        else:
+            v = c.fresh("rows", T.Matrix(T.Str))
+        c.bind("v", v)
+        c.v.update(val=v)
+
+    def ensures(self, c, out):
+        st, r, var = out.state, out.value, c.variant
+        val = c.v["val"]
+        if var == "none":
+            return {"none_stays_none": z3.BoolVal(r is None)}
+        same = isinstance(r, Ref) and isinstance(val, Ref) and r.oid == val.oid
+        if var == "nested_list":
+            return {"C09.a_list_of_rows_is_returned_as_it_is": z3.BoolVal(same)}
+        ok = isinstance(r, Ref) and isinstance(st.obj(r), ListObj) and st.obj(r).items is not None and len(st.obj(r).items) == 1
+        if not ok:
+            return {"C09.result_is_one_row": z3.BoolVal(False)}
+        row = st.obj(r).items[0]
+        if var == "flat_list":
+            return {"C09.a_flat_list_becomes_one_row_holding_that_list": z3.BoolVal(isinstance(row, Ref) and row.oid == val.oid)}
+        ro = st.obj(row) if isinstance(row, Ref) else None
+        ok2 = ro is not None and isinstance(ro, ListObj) and ro.items is not None and len(ro.items) == 1
+        return {"C09.a_scalar_becomes_a_one_by_one_matrix": And(z3.BoolVal(bool(ok2)), to_z3(norm_str(ro.items[0])) == to_z3(val)) if ok2 else z3.BoolVal(False)}
